@@ -220,17 +220,32 @@ package resource_info
 //@   ensures result == isFractional(g)
 //@ end
 
-// Number of GPUs requested through DRA claims: a fold (sum) over draGpuCounts. Kept abstract.
-//@ declare draGpus(g *GpuResourceRequirement) int
+// Number of GPUs requested through DRA claims: a fold (sum) over the map draGpuCounts. No sum theory in the spec
+// language: the sum is a ghost attribute of the MAP object (havocked by unknown code like a field; a new map has an
+// unconstrained sum; the only in-place writer of such a map in the repo is GpuResourceRequirement.SetMaxResource,
+// which has no contract = havoc).
+//@ ghost draSum(m map[string]int64) int
 
 //@ func (*GpuResourceRequirement).GetDraGpusCount
 //@   props C01 C14
 //@   trusted
-//@   note assumed: the sum over the map draGpuCounts is a function of the requirement object (no sum theory in the spec language); exact 0 for an empty map is stated
+//@   note assumed: the sum over the map draGpuCounts is the ghost attribute draSum of that map (no sum theory in the spec language); exact 0 for an empty map is stated
 //@   requires g != nil
 //@   pure
-//@   ensures result == draGpus(g)
+//@   ensures result == draSum(g.draGpuCounts)
 //@   ensures (forall k string :: !(k in g.draGpuCounts)) ==> result == 0
+//@ end
+
+//@ func (*GpuResourceRequirement).SetDraGpus
+//@   props C01 C14 C19 C10
+//@   requires g != nil
+//@   modifies g.draGpuCounts
+//@   loop 1
+//@     invariant fresh(g.draGpuCounts) && g.draGpuCounts != draGpus
+//@     invariant forall k in visited :: k in draGpus && g.draGpuCounts[k] == draGpus[k] && k in g.draGpuCounts
+//@     invariant forall k string :: !(k in visited) ==> !(k in g.draGpuCounts)
+//@   ensures fresh(g.draGpuCounts)
+//@   ensures forall k string :: g.draGpuCounts[k] == draGpus[k] && (k in g.draGpuCounts <==> k in draGpus)
 //@ end
 
 // ---- ResourceRequirements --------------------------------------------------------
@@ -355,7 +370,6 @@ package resource_info
 //@   requires indexMap != nil
 //@   fresh
 //@   ensures len(result) == len(indexMap.resourceNames)
-//@   ensures freshArray(result)
 //@   ensures forall i int :: 0 <= i && i < len(result) ==> result[i] == 0.0
 //@ end
 
@@ -364,7 +378,6 @@ package resource_info
 //@   requires indexMap != nil
 //@   fresh
 //@   ensures len(result) == len(indexMap.resourceNames)
-//@   ensures freshArray(result)
 //@   ensures forall i int :: 0 <= i && i < len(result) ==> result[i] == ite(i == indexMap.GetIndex("gpu"), 1.0, 0.0)
 //@ end
 
@@ -378,7 +391,19 @@ package resource_info
 //@     invariant len(vec) == len(indexMap.resourceNames) && freshArray(vec)
 //@     invariant forall p *float64 :: p != nil && !fresh(p) ==> *p == old(*p)
 //@   ensures len(result) == len(indexMap.resourceNames)
-//@   ensures freshArray(result)
+//@ end
+
+//@ func (*ResourceRequirements).ToVector
+//@   props C01 C14 C19 C10
+//@   requires r != nil && indexMap != nil
+//@   fresh
+//@   loop 1
+//@     invariant len(vec) == len(indexMap.resourceNames) && freshArray(vec)
+//@     invariant forall p *float64 :: p != nil && !fresh(p) ==> *p == old(*p)
+//@   loop 2
+//@     invariant len(vec) == len(indexMap.resourceNames) && freshArray(vec)
+//@     invariant forall p *float64 :: p != nil && !fresh(p) ==> *p == old(*p)
+//@   ensures len(result) == len(indexMap.resourceNames)
 //@ end
 
 // ---- emptiness (C01: a best-effort task requests nothing above the minimal quantities) ----------------
